@@ -166,3 +166,404 @@ Definition next (shape cs st : list Z) : list Z :=
   | c :: _, s :: st' => carry shape cs (s + c :: st')
   | _, _ => st
   end.
+
+(* ------------------------------------------------------------------ one unfolding of the translated loop *)
+Definition body_slices (shape cs : list Z) (ndim : Z) (st : list Z) : list (Z * Z) :=
+  let end_index := map (fun i => Z.min (znth st i + znth cs i) (znth shape i)) (py_range 0 ndim 1) in
+  map (fun i => (znth st i, znth end_index i)) (py_range 0 ndim 1).
+
+Definition carry_body (shape cs : list Z) (st : list Z) (i : Z) : list Z :=
+  if znth st i >=? znth shape i then
+    zupd (zupd st i 0) (i + 1) (znth (zupd st i 0) (i + 1) + znth cs (i + 1))
+  else st.
+
+Definition body_next (shape cs : list Z) (ndim : Z) (st : list Z) : list Z :=
+  fold_left (carry_body shape cs) (py_range 0 (ndim - 1) 1) (zupd st 0 (znth st 0 + znth cs 0)).
+
+Lemma loop_unfold (fuel : nat) (shape cs : list Z) (ndim : Z) (st : list Z) (out : list (list (Z * Z))) :
+  iterate_chunks_loop0 (S fuel) shape cs ndim st out =
+  if list_le st shape then
+    if znth (body_next shape cs ndim st) (-1) >=? znth shape (-1)
+    then Ok (out ++ [body_slices shape cs ndim st])
+    else iterate_chunks_loop0 fuel shape cs ndim (body_next shape cs ndim st)
+           (out ++ [body_slices shape cs ndim st])
+  else Ok out.
+Proof. reflexivity. Qed.
+
+Lemma body_slices_chunk (shape cs st : list Z) (n : nat) :
+  length shape = n -> length cs = n -> length st = n ->
+  body_slices shape cs (Z.of_nat n) st = chunk shape cs st.
+Proof.
+  intros Hs Hc Hst. unfold body_slices. cbv zeta.
+  pose proof (map_range_zip3 (fun s c n => Z.min (s + c) n) st cs shape n Hst Hc Hs) as HE.
+  cbv beta in HE. rewrite HE. fold (ends shape cs st).
+  assert (HLe : length (ends shape cs st) = n) by (apply zip3_length; assumption).
+  pose proof (map_range_zip3 (fun s e _ => (s, e)) st (ends shape cs st) st n Hst HLe Hst) as HC.
+  cbv beta in HC. rewrite HC. reflexivity.
+Qed.
+
+Lemma fold_carry (shape2 : list Z) :
+  forall (cs2 st2 ps pc pa : list Z) (k : nat),
+  length ps = k -> length pc = k -> length pa = k ->
+  length cs2 = length shape2 -> length st2 = length shape2 ->
+  fold_left (carry_body (ps ++ shape2) (pc ++ cs2))
+            (map Z.of_nat (seq k (pred (length shape2)))) (pa ++ st2)
+  = pa ++ carry shape2 cs2 st2.
+Proof.
+  induction shape2 as [|n shape2 IH]; intros cs2 st2 ps pc pa k Hps Hpc Hpa Hcs Hst.
+  - destruct cs2; [|discriminate]. destruct st2; [|discriminate]. reflexivity.
+  - destruct cs2 as [|c cs2]; [discriminate|]. destruct st2 as [|s st2]; [discriminate|].
+    destruct shape2 as [|n' sh].
+    + destruct cs2; [|discriminate]. destruct st2; [|discriminate]. reflexivity.
+    + destruct cs2 as [|c' cs2]; [discriminate|]. destruct st2 as [|s' st2]; [discriminate|].
+      cbn [length pred seq map fold_left]. rewrite carry_cons2.
+      assert (Hsh : ps ++ n :: n' :: sh = (ps ++ [n]) ++ n' :: sh) by (now rewrite <- app_assoc).
+      assert (Hcc : pc ++ c :: c' :: cs2 = (pc ++ [c]) ++ c' :: cs2) by (now rewrite <- app_assoc).
+      assert (Hl1 : forall (p : list Z) (x : Z), length p = k -> length (p ++ [x]) = S k)
+        by (intros p x Hp; rewrite app_length; cbn [length]; lia).
+      unfold carry_body at 2.
+      rewrite (znth_app_at pa s (s' :: st2) k Hpa), (znth_app_at ps n (n' :: sh) k Hps).
+      destruct (s >=? n) eqn:E.
+      * rewrite (zupd_app_at pa s 0 (s' :: st2) k Hpa).
+        rewrite (znth_app_at1 pa 0 s' st2 k Hpa), (znth_app_at1 pc c c' cs2 k Hpc).
+        rewrite (zupd_app_at1 pa 0 s' (s' + c') st2 k Hpa).
+        replace (pa ++ 0 :: s' + c' :: st2) with ((pa ++ [0]) ++ s' + c' :: st2)
+          by (now rewrite <- app_assoc).
+        rewrite Hsh, Hcc.
+        pose proof (IH (c' :: cs2) (s' + c' :: st2) (ps ++ [n]) (pc ++ [c]) (pa ++ [0]) (S k)
+                      (Hl1 _ _ Hps) (Hl1 _ _ Hpc) (Hl1 _ _ Hpa)
+                      ltac:(cbn [length] in *; lia) ltac:(cbn [length] in *; lia)) as HI.
+        cbn [length pred] in HI. rewrite HI. now rewrite <- app_assoc.
+      * replace (pa ++ s :: s' :: st2) with ((pa ++ [s]) ++ s' :: st2)
+          by (now rewrite <- app_assoc).
+        rewrite Hsh, Hcc.
+        pose proof (IH (c' :: cs2) (s' :: st2) (ps ++ [n]) (pc ++ [c]) (pa ++ [s]) (S k)
+                      (Hl1 _ _ Hps) (Hl1 _ _ Hpc) (Hl1 _ _ Hpa)
+                      ltac:(cbn [length] in *; lia) ltac:(cbn [length] in *; lia)) as HI.
+        cbn [length pred] in HI. rewrite HI. now rewrite <- app_assoc.
+Qed.
+
+Lemma body_next_next (shape cs st : list Z) :
+  length cs = length shape -> length st = length shape ->
+  body_next shape cs (zlen cs) st = next shape cs st.
+Proof.
+  intros Hc Hst. unfold body_next, next.
+  destruct cs as [|c cs'].
+  - destruct shape; [|discriminate]. destruct st; [|discriminate]. reflexivity.
+  - destruct st as [|s st']; [destruct shape; discriminate|].
+    assert (H0 : zupd (s :: st') 0 (znth (s :: st') 0 + znth (c :: cs') 0) = (s + c) :: st')
+      by reflexivity.
+    rewrite H0.
+    assert (Hn : zlen (c :: cs') - 1 = Z.of_nat (pred (length shape)))
+      by (unfold zlen; rewrite Hc; cbn [length] in Hc; lia).
+    rewrite Hn, py_range_unit.
+    apply (fold_carry shape (c :: cs') (s + c :: st') [] [] [] 0%nat); auto.
+Qed.
+
+(* ------------------------------------------------------------------ the domain of start vectors *)
+Fixpoint dom (shape cs st : list Z) : Prop :=
+  match shape, cs, st with
+  | [], [], [] => True
+  | n :: shape', c :: cs', s :: st' => 1 <= c /\ 0 <= s < n /\ dom shape' cs' st'
+  | _, _, _ => False
+  end.
+
+Lemma dom_length (shape : list Z) : forall cs st,
+  dom shape cs st -> length cs = length shape /\ length st = length shape.
+Proof.
+  induction shape as [|n shape IH]; intros cs st Hd;
+    destruct cs as [|c cs]; destruct st as [|s st]; cbn [dom] in Hd; try contradiction.
+  - split; reflexivity.
+  - destruct Hd as (_ & _ & Hd). destruct (IH cs st Hd) as [H1 H2]. cbn [length]. split; congruence.
+Qed.
+
+Lemma dom_list_le (shape cs st : list Z) : shape <> [] -> dom shape cs st -> list_le st shape = true.
+Proof.
+  intros Hne Hd. destruct shape as [|n shape]; [contradiction|].
+  destruct cs as [|c cs]; destruct st as [|s st]; cbn [dom] in Hd; try contradiction.
+  destruct Hd as (_ & Hs & _). cbn [list_le]. destruct (s <? n) eqn:E; [reflexivity | lia].
+Qed.
+
+Lemma dom_last (shape : list Z) : forall cs st,
+  shape <> [] -> dom shape cs st -> last st 0 < last shape 0.
+Proof.
+  induction shape as [|n shape IH]; intros cs st Hne Hd; [contradiction|].
+  destruct cs as [|c cs]; destruct st as [|s st]; cbn [dom] in Hd; try contradiction.
+  destruct Hd as (_ & Hs & Hd).
+  destruct shape as [|n' sh].
+  - destruct cs; destruct st; cbn [dom] in Hd; try contradiction. cbn [last]. lia.
+  - destruct cs as [|c' cs]; destruct st as [|s' st]; cbn [dom] in Hd; try contradiction.
+    change (last (s' :: st) 0 < last (n' :: sh) 0).
+    apply (IH (c' :: cs) (s' :: st)); [discriminate | exact Hd].
+Qed.
+
+Lemma carry_id (shape : list Z) : forall cs st, dom shape cs st -> carry shape cs st = st.
+Proof.
+  induction shape as [|n shape IH]; intros cs st Hd; [reflexivity|].
+  destruct cs as [|c cs]; destruct st as [|s st]; cbn [dom] in Hd; try contradiction.
+  destruct Hd as (_ & Hs & Hd).
+  destruct shape as [|n' sh].
+  - destruct cs; destruct st; cbn [dom] in Hd; try contradiction. reflexivity.
+  - destruct cs as [|c' cs]; destruct st as [|s' st]; cbn [dom] in Hd; try contradiction.
+    rewrite carry_cons2. destruct (s >=? n) eqn:E; [lia|].
+    f_equal. apply IH. exact Hd.
+Qed.
+
+Lemma carry_length (shape : list Z) : forall cs st, length (carry shape cs st) = length st.
+Proof.
+  induction shape as [|n shape IH]; intros cs st; [reflexivity|].
+  destruct cs as [|c cs]; destruct st as [|s st]; try reflexivity.
+  destruct shape as [|n' sh]; destruct cs as [|c' cs]; destruct st as [|s' st]; try reflexivity.
+  rewrite carry_cons2. destruct (s >=? n); cbn [length]; f_equal; rewrite IH; reflexivity.
+Qed.
+
+Lemma last_cons_ne (a d : Z) (l : list Z) : l <> [] -> last (a :: l) d = last l d.
+Proof. intros Hne. destruct l; [contradiction | reflexivity]. Qed.
+
+(* ------------------------------------------------------------------ odometer order *)
+Definition expand (n c : Z) (L : list (list Z)) : list (list Z) :=
+  flat_map (fun rest => map (fun b => b :: rest) (py_range 0 n c)) L.
+
+(* start vectors strictly after st, first axis fastest *)
+Fixpoint after (shape cs st : list Z) : list (list Z) :=
+  match shape, cs, st with
+  | n :: shape', c :: cs', s :: st' =>
+      map (fun b => b :: st') (py_range (s + c) n c) ++ expand n c (after shape' cs' st')
+  | _, _, _ => []
+  end.
+
+Lemma after_cons (n c s : Z) (shape cs st : list Z) :
+  after (n :: shape) (c :: cs) (s :: st) =
+  map (fun b => b :: st) (py_range (s + c) n c) ++ expand n c (after shape cs st).
+Proof. reflexivity. Qed.
+
+Lemma expand_nil (n c : Z) : expand n c [] = [].
+Proof. reflexivity. Qed.
+
+Lemma expand_cons (n c : Z) (x : list Z) (L : list (list Z)) :
+  expand n c (x :: L) = map (fun b => b :: x) (py_range 0 n c) ++ expand n c L.
+Proof. reflexivity. Qed.
+
+(* one step of the odometer is the head of [after]; it overflows the last axis exactly when
+   nothing is left *)
+Lemma step_spec (shape : list Z) : forall cs st,
+  shape <> [] -> dom shape cs st ->
+  match after shape cs st with
+  | [] => last (next shape cs st) 0 >= last shape 0
+  | x :: l => next shape cs st = x /\ after shape cs x = l /\ dom shape cs x
+  end.
+Proof.
+  induction shape as [|n shape IH]; intros cs st Hne Hd; [contradiction|].
+  destruct cs as [|c cs]; destruct st as [|s st]; cbn [dom] in Hd; try contradiction.
+  destruct Hd as (Hc & Hs & Hd). unfold next.
+  destruct shape as [|n' sh].
+  - destruct cs; destruct st; cbn [dom] in Hd; try contradiction.
+    rewrite carry_single, after_cons. change (after [] [] []) with (@nil (list Z)).
+    rewrite expand_nil, app_nil_r.
+    destruct (Z_lt_le_dec (s + c) n) as [Hlt|Hge].
+    + rewrite (py_range_cons (s + c) n c) by lia. cbn [map].
+      split; [reflexivity|]. split.
+      * rewrite after_cons. change (after [] [] []) with (@nil (list Z)).
+        now rewrite expand_nil, app_nil_r.
+      * cbn [dom]. lia.
+    + rewrite py_range_nil by lia. cbn [map last]. lia.
+  - destruct cs as [|c' cs]; destruct st as [|s' st]; cbn [dom] in Hd; try contradiction.
+    rewrite carry_cons2.
+    pose proof (IH (c' :: cs) (s' :: st) ltac:(discriminate) Hd) as HI. unfold next in HI.
+    rewrite after_cons.
+    destruct (Z_lt_le_dec (s + c) n) as [Hlt|Hge].
+    + destruct (s + c >=? n) eqn:E; [lia|].
+      rewrite (carry_id (n' :: sh) (c' :: cs) (s' :: st) Hd).
+      rewrite (py_range_cons (s + c) n c) by lia. cbn [map app].
+      split; [reflexivity|]. split; [now rewrite after_cons|].
+      cbn [dom]. cbn [dom] in Hd. repeat split; try lia; apply Hd.
+    + destruct (s + c >=? n) eqn:E; [|lia].
+      rewrite py_range_nil by lia. cbn [map app].
+      destruct (after (n' :: sh) (c' :: cs) (s' :: st)) as [|x' l'] eqn:EA.
+      * rewrite expand_nil.
+        assert (Hnn : carry (n' :: sh) (c' :: cs) (s' + c' :: st) <> []).
+        { intros H0. pose proof (carry_length (n' :: sh) (c' :: cs) (s' + c' :: st)) as HL.
+          rewrite H0 in HL. discriminate. }
+        rewrite (last_cons_ne _ _ _ Hnn). rewrite last_cons_ne by discriminate. exact HI.
+      * destruct HI as (Hx & Ha & Hdx).
+        rewrite expand_cons, (py_range_cons 0 n c) by lia. cbn [map app].
+        split; [now rewrite Hx|]. split.
+        -- rewrite after_cons, Ha. reflexivity.
+        -- cbn [dom]. repeat split; try lia. exact Hdx.
+Qed.
+
+(* ------------------------------------------------------------------ running the translated loop *)
+Lemma loop_run (shape cs : list Z) : shape <> [] ->
+  forall (l : list (list Z)) (st : list Z) (out : list (list (Z * Z))) (fuel : nat),
+  dom shape cs st -> after shape cs st = l -> (length l < fuel)%nat ->
+  iterate_chunks_loop0 fuel shape cs (zlen cs) st out
+  = Ok (out ++ map (chunk shape cs) (st :: l)).
+Proof.
+  intros Hne l. induction l as [|x l IH]; intros st out fuel Hd Ha Hf;
+    (destruct fuel as [|fuel]; [cbn [length] in Hf; lia|]);
+    destruct (dom_length shape cs st Hd) as [Hlc Hls];
+    rewrite loop_unfold, (dom_list_le shape cs st Hne Hd);
+    rewrite (body_next_next shape cs st Hlc Hls);
+    unfold zlen; rewrite (body_slices_chunk shape cs st (length cs) (eq_sym Hlc) eq_refl (eq_trans Hls (eq_sym Hlc)));
+    rewrite !znth_m1;
+    pose proof (step_spec shape cs st Hne Hd) as HS; rewrite Ha in HS.
+  - destruct (last (next shape cs st) 0 >=? last shape 0) eqn:E; [reflexivity | lia].
+  - destruct HS as (Hx & Hax & Hdx). rewrite Hx.
+    pose proof (dom_last shape cs x Hne Hdx) as HL.
+    destruct (last x 0 >=? last shape 0) eqn:E; [lia|].
+    fold (zlen cs). rewrite (IH x (out ++ [chunk shape cs st]) fuel Hdx Hax ltac:(cbn [length] in Hf; lia)).
+    rewrite <- app_assoc. reflexivity.
+Qed.
+
+(* ------------------------------------------------------------------ [m_chunks] in odometer order *)
+Lemma map_chunk_expand (n c : Z) (shape cs : list Z) (L : list (list Z)) :
+  map (chunk (n :: shape) (c :: cs)) (expand n c L) =
+  flat_map (fun rest => map (fun t => t :: rest) (tiles n c)) (map (chunk shape cs) L).
+Proof.
+  induction L as [|a L IH]; [reflexivity|].
+  rewrite expand_cons, map_app, IH. cbn [map flat_map]. f_equal.
+  unfold tiles. rewrite !map_map. apply map_ext. intros b. apply chunk_cons.
+Qed.
+
+Definition zeros (cs : list Z) : list Z := repeat 0 (length cs).
+
+Lemma dom_zeros (cs shape : list Z) :
+  Forall2 (fun c n => 1 <= c <= n) cs shape -> dom shape cs (zeros cs).
+Proof.
+  unfold zeros. induction 1 as [|c n cs shape Hcn Hrest IH]; cbn [length repeat dom]; [exact I|].
+  repeat split; try lia. exact IH.
+Qed.
+
+Lemma from_zeros (cs shape : list Z) :
+  Forall2 (fun c n => 1 <= c <= n) cs shape ->
+  map (chunk shape cs) (zeros cs :: after shape cs (zeros cs)) = m_chunks shape cs.
+Proof.
+  unfold zeros. induction 1 as [|c n cs shape Hcn Hrest IH]; [reflexivity|].
+  cbn [length repeat]. rewrite after_cons. cbn [m_chunks]. rewrite <- IH.
+  rewrite <- map_chunk_expand. f_equal.
+  rewrite expand_cons, (py_range_cons 0 n c) by lia. reflexivity.
+Qed.
+
+(* ------------------------------------------------------------------ the fuel suffices *)
+Lemma length_product {A B} (g : A -> B -> B) (T : list A) (L : list B) :
+  length (flat_map (fun rest => map (fun t => g t rest) T) L) = (length T * length L)%nat.
+Proof.
+  induction L as [|a L IH]; cbn [flat_map length]; [lia|].
+  rewrite app_length, map_length, IH. lia.
+Qed.
+
+Lemma length_tiles (n c : Z) : 1 <= c <= n -> 1 <= Z.of_nat (length (tiles n c)) <= n.
+Proof.
+  intros H. unfold tiles, py_range. rewrite !map_length, seq_length.
+  destruct (range_len_spec 0 n c ltac:(lia) ltac:(lia)) as [HL Hpos]. rewrite HL in *. nia.
+Qed.
+
+Lemma m_chunks_length (cs shape : list Z) :
+  Forall2 (fun c n => 1 <= c <= n) cs shape ->
+  1 <= Z.of_nat (length (m_chunks shape cs)) <= zprod (map (fun n => Z.max n 1) shape).
+Proof.
+  induction 1 as [|c n cs shape Hcn Hrest IH]; [cbn; lia|].
+  cbn [m_chunks map]. rewrite zprod_cons.
+  rewrite (length_product (fun (t : Z * Z) rest => t :: rest)).
+  pose proof (length_tiles n c Hcn) as HT. nia.
+Qed.
+
+Lemma loop_from_zeros (cs shape : list Z) (fuel : nat) :
+  shape <> [] -> Forall2 (fun c n => 1 <= c <= n) cs shape -> (fuel_for shape <= fuel)%nat ->
+  iterate_chunks_loop0 fuel shape cs (zlen cs) (repeat 0 (Z.to_nat (zlen cs))) []
+  = Ok (m_chunks shape cs).
+Proof.
+  intros Hne HF Hfuel.
+  replace (repeat 0 (Z.to_nat (zlen cs))) with (zeros cs)
+    by (unfold zeros, zlen; now rewrite Nat2Z.id).
+  rewrite (loop_run shape cs Hne (after shape cs (zeros cs)) (zeros cs) [] fuel
+             (dom_zeros cs shape HF) eq_refl).
+  - rewrite from_zeros by exact HF. reflexivity.
+  - pose proof (m_chunks_length cs shape HF) as HL.
+    rewrite <- (from_zeros cs shape HF) in HL. cbn [map length] in HL. rewrite map_length in HL.
+    unfold fuel_for in Hfuel. lia.
+Qed.
+
+(* ------------------------------------------------------------------ the guards of iterate_chunks *)
+Lemma zprod_pos_F2 (cs shape : list Z) :
+  Forall2 (fun c n => 1 <= c <= n) cs shape -> 1 <= zprod shape.
+Proof.
+  induction 1 as [|c n cs shape Hcn Hrest IH]; [rewrite zprod_nil; lia|]. rewrite zprod_cons. nia.
+Qed.
+
+Lemma no_oversize (cs shape : list Z) :
+  Forall2 (fun c n => 1 <= c <= n) cs shape ->
+  existsb (fun xy : Z * Z => let '(x, y) := xy in x >? y) (combine cs shape) = false.
+Proof.
+  induction 1 as [|c n cs shape Hcn Hrest IH]; [reflexivity|].
+  cbn [combine existsb]. rewrite IH. destruct (c >? n) eqn:E; [lia | reflexivity].
+Qed.
+
+Lemma F2_length {A B} (R : A -> B -> Prop) (a : list A) (b : list B) :
+  Forall2 R a b -> length a = length b.
+Proof. induction 1 as [|x y a b Hxy Hab IH]; cbn [length]; [reflexivity | now rewrite IH]. Qed.
+
+Lemma zprod_zero (shape : list Z) : In 0 shape -> zprod shape = 0.
+Proof.
+  induction shape as [|n shape IH]; intros Hin; [destruct Hin|].
+  rewrite zprod_cons. destruct Hin as [->|Hin]; [lia | rewrite (IH Hin); lia].
+Qed.
+
+(* ------------------------------------------------------------------ theorems *)
+
+(* fuel monotonicity: every fuel >= fuel_for shape gives the same (complete) answer *)
+Theorem iterate_chunks_is_product_fuel : forall (shape cs : list Z) (fuel : nat),
+  shape <> [] -> Forall2 (fun c n => 1 <= c <= n) cs shape -> (fuel_for shape <= fuel)%nat ->
+  iterate_chunks fuel shape (Some cs) None = Ok (m_chunks shape cs).
+Proof.
+  intros shape cs fuel Hne HF Hfuel. unfold iterate_chunks.
+  pose proof (zprod_pos_F2 cs shape HF) as Hp.
+  destruct (zprod shape =? 0) eqn:E0; [lia|].
+  assert (HL : zlen cs =? zlen shape = true)
+    by (unfold zlen; rewrite (F2_length _ _ _ HF); apply Z.eqb_refl).
+  rewrite HL. cbn [negb]. rewrite (no_oversize cs shape HF).
+  apply loop_from_zeros; assumption.
+Qed.
+
+Theorem iterate_chunks_is_product : forall (shape cs : list Z),
+  shape <> [] -> Forall2 (fun c n => 1 <= c <= n) cs shape ->
+  iterate_chunks (fuel_for shape) shape (Some cs) None = Ok (m_chunks shape cs).
+Proof.
+  intros shape cs Hne HF. apply iterate_chunks_is_product_fuel; [assumption | assumption | apply le_n].
+Qed.
+
+Theorem iterate_chunks_nmax_is_product_fuel : forall (shape : list Z) (n_max : Z) (fuel : nat),
+  shape <> [] -> 1 <= n_max -> Forall (fun n => 1 <= n) shape -> (fuel_for shape <= fuel)%nat ->
+  iterate_chunks fuel shape None (Some n_max)
+  = Ok (m_chunks shape (find_chunk_shape shape (Some n_max))).
+Proof.
+  intros shape n_max fuel Hne Hn Hs Hfuel.
+  destruct (chunk_shape_bound shape n_max Hn Hs) as (_ & HF & _).
+  unfold iterate_chunks.
+  pose proof (zprod_pos_F2 _ shape HF) as Hp.
+  destruct (zprod shape =? 0) eqn:E0; [lia|].
+  apply loop_from_zeros; assumption.
+Qed.
+
+Theorem iterate_chunks_nmax_is_product : forall (shape : list Z) (n_max : Z),
+  shape <> [] -> 1 <= n_max -> Forall (fun n => 1 <= n) shape ->
+  iterate_chunks (fuel_for shape) shape None (Some n_max)
+  = Ok (m_chunks shape (find_chunk_shape shape (Some n_max))).
+Proof.
+  intros shape n_max Hne Hn Hs.
+  apply iterate_chunks_nmax_is_product_fuel; [assumption | assumption | assumption | apply le_n].
+Qed.
+
+Theorem iterate_chunks_empty : forall shape cs nm, In 0 shape -> Forall (fun n => 0 <= n) shape ->
+  forall fuel, iterate_chunks fuel shape cs nm = Ok [].
+Proof.
+  intros shape cs nm Hin _ fuel. unfold iterate_chunks.
+  rewrite (zprod_zero shape Hin). cbn [Z.eqb].
+  destruct cs; destruct nm; reflexivity.
+Qed.
+
+Print Assumptions iterate_chunks_is_product_fuel.
+Print Assumptions iterate_chunks_is_product.
+Print Assumptions iterate_chunks_nmax_is_product_fuel.
+Print Assumptions iterate_chunks_nmax_is_product.
+Print Assumptions iterate_chunks_empty.
